@@ -415,6 +415,12 @@ def handle (st : DState) (line : String) : DState × String :=
     match parseKind kind, bytesOfHex csd, [ncr, nac, busy, ip].mapM String.toNat? with
     | some k, some c, some [ncr, nac, busy, ip] => ({ st with card := Spec.Card.mk k c ncr nac busy ip }, "ok")
     | _, _, _ => (st, "bad-op")
+  | ["card", "new", kind, csd, ncr, nac, busy, ip, gap] =>
+    -- with the optional seventh parameter: `stopGap` (N_BR)
+    match parseKind kind, bytesOfHex csd, [ncr, nac, busy, ip, gap].mapM String.toNat? with
+    | some k, some c, some [ncr, nac, busy, ip, gap] =>
+      ({ st with card := Spec.Card.mk k c ncr nac busy ip gap }, "ok")
+    | _, _, _ => (st, "bad-op")
   | ["card", "blk", n, h] =>
     match n.toNat?, bytesOfHex h with
     | some n, some b => ({ st with card := { st.card with mem := st.card.mem.insert n b } }, "ok")
